@@ -1449,6 +1449,10 @@ class BinaryOperator(SymbolicExpression, ABC):
         required_vars = HashedIterable()
         if child is self.left:
             required_vars.update(self.right._unique_variables_)
+        elif isinstance(self, Comparator):
+            # the operands of a comparison are compared with each other: an output of the right operand that was seen
+            # with another value of the left operand is not a duplicate
+            required_vars.update(self.left._unique_variables_)
         if when_true or (when_true is None):
             for conc in self._conclusion_:
                 required_vars.update(conc._unique_variables_)
